@@ -192,7 +192,7 @@ func (s CharSem) Total(L int) *big.Int {
 // space is larger than limit.
 func (s CharSem) Brute(L int, limit int64) (count int64, ok bool) {
 	a := int64(len(s.Alphabet))
-	if L < 1 {
+	if L < 1 || a == 0 {
 		return 0, true
 	}
 	space := int64(1)
